@@ -214,17 +214,20 @@ func (t *Dense) TensorMul(other Tensor, axesA, axesB []int) (retVal *Dense, err 
 	nb := len(axesB)
 	sameLength := na == nb
 	if sameLength {
+		// negative axes count from the end; they are resolved on copies, the caller's slices are left alone
+		axesA = append([]int(nil), axesA...)
+		axesB = append([]int(nil), axesB...)
 		for i := 0; i < na; i++ {
-			if ts[axesA[i]] != os[axesB[i]] {
-				sameLength = false
-				break
-			}
 			if axesA[i] < 0 {
 				axesA[i] += td
 			}
 
 			if axesB[i] < 0 {
 				axesB[i] += od
+			}
+			if axesA[i] < 0 || axesA[i] >= td || axesB[i] < 0 || axesB[i] >= od || ts[axesA[i]] != os[axesB[i]] {
+				sameLength = false
+				break
 			}
 		}
 	}
